@@ -17,16 +17,16 @@ open Gen Rot RotExp SeriesLemmas
 namespace C03
 
 /-! ## SO(2), ℝⁿ: exp and log are mutually inverse identically -/
-theorem SO2_log_exp (x : ℝ) : SO2.log.r (SO2.exp.r x) = x := by simp [cas_defs, cas_real]
-theorem SO2_exp_log (a : ℝ) : SO2.exp.r (SO2.log.r a) = a := by simp [cas_defs, cas_real]
+theorem SO2_log_exp (x : ℝ) : SO2.log.r (SO2.exp.r x) = x := by simp [cas_defs, cas_real] <;> (try ring1)
+theorem SO2_exp_log (a : ℝ) : SO2.exp.r (SO2.log.r a) = a := by simp [cas_defs, cas_real] <;> (try ring1)
 theorem R3_log_exp (x : Fin 3 → ℝ) : R3.log.r_vec (R3.exp.r_vec x) = x := by
-  funext i; fin_cases i <;> simp [cas_defs, cas_real]
+  funext i; fin_cases i <;> simp [cas_defs, cas_real] <;> (try ring1)
 theorem R3_exp_log (a : Fin 3 → ℝ) : R3.exp.r_vec (R3.log.r_vec a) = a := by
-  funext i; fin_cases i <;> simp [cas_defs, cas_real]
+  funext i; fin_cases i <;> simp [cas_defs, cas_real] <;> (try ring1)
 theorem R2_log_exp (x : Fin 2 → ℝ) : R2.log.r_vec (R2.exp.r_vec x) = x := by
-  funext i; fin_cases i <;> simp [cas_defs, cas_real]
+  funext i; fin_cases i <;> simp [cas_defs, cas_real] <;> (try ring1)
 theorem R2_exp_log (a : Fin 2 → ℝ) : R2.exp.r_vec (R2.log.r_vec a) = a := by
-  funext i; fin_cases i <;> simp [cas_defs, cas_real]
+  funext i; fin_cases i <;> simp [cas_defs, cas_real] <;> (try ring1)
 
 /-! ## SE(2): V⁻¹ V = 1 whenever the code's denominator a² + b² is non-zero -/
 theorem SE2_exp_log (X : Fin 3 → ℝ)
@@ -86,7 +86,7 @@ theorem usq_eq (x : Fin 3 → ℝ) : usq x = nsq x := by unfold usq nsq; ring
 
 theorem SO3Mrp_log_spec (r : Fin 3 → ℝ) :
     SO3Mrp.log.r_vec r = fun i => SqSeries.four_atan_over_x (usq r) * r i := by
-  funext i; fin_cases i <;> simp [cas_defs, cas_real, usq]
+  funext i; fin_cases i <;> simp [cas_defs, cas_real, usq] <;> (try ring1)
 
 /-- the MRP log is the principal rotation vector: angle 4·atan|r| ≤ π for |r| ≤ 1 -/
 theorem SO3Mrp_log_principal (r : Fin 3 → ℝ) (h : eps ≤ usq r) (h1 : usq r ≤ 1) :
